@@ -806,10 +806,11 @@ pub fn run(outdir: &str, reviewed_dir: &str) -> Vec<String> {
     {
         use monero::blockdata::transaction::{TxIn, TxOut};
         use monero::consensus::encode::VarInt;
-        use monero::util::ringct::{Bulletproof, BulletproofPlus, Key, RangeSig};
+        use monero::util::ringct::{Bulletproof, BulletproofPlus, Clsag, EcdhInfo, Key, MgSig, RangeSig, Signature};
         use std::mem::size_of;
-        let s = format!("import MoneroModel.Types\n{}namespace Gen\ndef sizes : Sizes := ⟨{}, {}, {}, {}, {}, {}, {}, {}⟩\nend Gen\n", hdr.replace("from /repo's current source", "(std::mem::size_of in the current build of /repo)"),
-            size_of::<TxIn>(), size_of::<TxOut>(), size_of::<VarInt>(), size_of::<Key>(), size_of::<Bulletproof>(), size_of::<BulletproofPlus>(), size_of::<u8>(), size_of::<RangeSig>());
+        let s = format!("import MoneroModel.Types\n{}namespace Gen\ndef sizes : Sizes := ⟨{}, {}, {}, {}, {}, {}, {}, {}⟩\n/-- element sizes of the PUSH-GROWN vectors of the RingCT / signature decoders (C04 allocation ledger): `EcdhInfo`, `MgSig`, `Clsag`, `Signature`, `Vec<Key>` (header) -/\ndef szEcdh : Nat := {}\ndef szMg : Nat := {}\ndef szClsag : Nat := {}\ndef szSig : Nat := {}\ndef szVec : Nat := {}\nend Gen\n", hdr.replace("from /repo's current source", "(std::mem::size_of in the current build of /repo)"),
+            size_of::<TxIn>(), size_of::<TxOut>(), size_of::<VarInt>(), size_of::<Key>(), size_of::<Bulletproof>(), size_of::<BulletproofPlus>(), size_of::<u8>(), size_of::<RangeSig>(),
+            size_of::<EcdhInfo>(), size_of::<MgSig>(), size_of::<Clsag>(), size_of::<Signature>(), size_of::<Vec<Key>>());
         std::fs::write(format!("{}/Sizes.lean", outdir), s).unwrap();
     }
     // ---- second pass: observed tables, reviewed fallbacks
